@@ -12,6 +12,7 @@ pub mod refmath;
 pub mod report;
 pub mod rescue_consts;
 pub mod rescue_ref;
+pub mod seeds;
 pub mod stark;
 
 pub use json::{hex, J};
